@@ -90,7 +90,7 @@ fault = st.one_of(
     st.tuples(st.just("replay-stale"), st.integers(0, 5)).map(list),
 )
 op = st.fixed_dictionaries({
-    "kind": st.sampled_from(["call", "call", "call", "oneway", "batch", "getattr", "stream", "raise", "raise", "batch-oneway"]),
+    "kind": st.sampled_from(["call", "call", "call", "oneway", "batch", "getattr", "stream", "raise", "raise", "batch-oneway", "oneway-refused", "batch-oneway-refused"]),
     "faults": st.lists(fault, min_size=3, max_size=3),
 })
 
@@ -280,6 +280,28 @@ def run_case(case, servertype=None, keep=False):
                 o["_tok"], o["_want"] = tok, want_exec
                 if attempts and attempts[-1][0][0] == "reset-while-decoding":
                     state["stale"] = True       # the connection is dead but the proxy cannot know yet: the NEXT exchange may fail
+            elif kind in ("oneway-refused", "batch-oneway-refused"):
+                # a oneway request the daemon refuses in its dispatcher (no such member / a oneway batch whose second member does not
+                # exist): still no reply of any kind may come back - the next exchange on this connection must find its own answer
+                from Pyro5 import protocol as _protocol
+                ctl.script = faults[:1]
+                try:
+                    if kind == "oneway-refused":
+                        res = ("ok", p._pyroInvoke("no_such_member_%d" % (tok % 3), [tok], {}, flags=_protocol.FLAGS_ONEWAY))
+                    else:
+                        res = ("ok", p._pyroInvokeBatch([("work", (tok,), {}), ("no_such_member", (tok,), {}), ("work", (tok,), {})], oneway=True))
+                except errors.CommunicationError as x:
+                    res = ("comm", x)
+                except Exception as x:
+                    res = ("other", x)
+                attempts = ctl.history[before:]
+                if res[0] == "ok" and res[1] is not None:
+                    viol("oneway-returned-value", "%s returned %r" % (label, res[1]))
+                if res[0] == "other":
+                    viol("wrong-exception:oneway", "%s raised %r" % (label, res[1]))
+                o["_tok"], o["_want"] = tok, (0 if kind == "oneway-refused" else sum(1 for a in attempts if a[2]))
+                if attempts and attempts[-1][0][0] == "reset-while-decoding":
+                    state["stale"] = True
             elif kind == "batch-oneway":
                 # a oneway batch through the case's (re-used) BatchProxy: nothing comes back; its two calls run once per delivery
                 ctl.script = faults[:1]
